@@ -307,3 +307,32 @@ fn c10_k1_char_action() {
         | Err(_) => assert!(false, "char literal action failed on a token the lexer admits"),
     }
 }
+
+//@ id: c05_h7_integer_text_d6
+//@ property: C05
+//@ tier: quick
+//@ encodes: the `Integer` semantic action of parser.lalrpop (copied verbatim at run time): literal text -> IntegerLiteral
+//@ sym: token text matching [+-]?[0-9]{1,6}
+//@ oracle: independent checked accumulation of the digits: the parsed literal denotes exactly the mathematical value of its text (sign included)
+//@ bounds: <= 6 digits; unwind 10
+//@ replay: playback
+#[kani::proof]
+#[kani::unwind(10)]
+fn c05_h7_integer_text_d6() {
+    integer_action_check::<8>(6);
+}
+
+//@ id: c05_h7_integer_text_d40
+//@ property: C05
+//@ tier: thorough
+//@ encodes: the `Integer` semantic action of parser.lalrpop: literal text -> IntegerLiteral, every text around +-2^127
+//@ sym: token text matching [+-]?[0-9]{1,40}
+//@ oracle: as c05_h7_integer_text_d6; out-of-range text is rejected, never wrapped
+//@ bounds: <= 40 digits; unwind 44
+//@ replay: playback
+//@ timeout: 2400
+#[kani::proof]
+#[kani::unwind(44)]
+fn c05_h7_integer_text_d40() {
+    integer_action_check::<42>(40);
+}
